@@ -40,6 +40,20 @@ class Conj (α : Type) where
 
 abbrev M (α : Type) := Nat → Nat → α
 
+/-! Tables: the driver stores every intermediate matrix of a composed gate as an array
+(`tab`), and hands it to the functional definitions below through `look`.  This is an
+evaluation strategy only: `look (tab d f)` agrees with `f` on `[0,d)²` (`look_tab`). -/
+abbrev Tbl (α : Type) := Array (Array α)
+
+def tab {α : Type} (d : Nat) (f : M α) : Tbl α :=
+  Array.ofFn (n := d) fun i => Array.ofFn (n := d) fun j => f i.val j.val
+
+def look {α : Type} [OfNat α 0] (t : Tbl α) : M α := fun i j => (t.getD i #[]).getD j 0
+
+theorem look_tab {α : Type} [OfNat α 0] (d : Nat) (f : M α) (i j : Nat) (hi : i < d) (hj : j < d) :
+    look (tab d f) i j = f i j := by
+  simp [look, tab, Array.getD, hi, hj]
+
 section defs
 variable {α : Type} [Add α] [Mul α] [Neg α] [Sub α] [OfNat α 0] [OfNat α 1]
 
@@ -70,6 +84,7 @@ def subM (A B : M α) : M α := fun i j => A i j - B i j
 def smulM (s : α) (A : M α) : M α := fun i j => s * A i j
 
 def sumTo (n : Nat) (f : Nat → α) : α := (List.range n).foldl (fun s k => s + f k) 0
+
 /-- product of `n×n` matrices -/
 def mulM (n : Nat) (A B : M α) : M α := fun i j => sumTo n fun k => A i k * B k j
 /-- `np.kron(A, B)` where `B` is `db × db` -/
@@ -496,14 +511,17 @@ def UG.mul (d : Nat) (x y : UG α) : UG α :=
 tabulates `sq[k] = x^(2^k)` (`utrys`, `grads`) up to the highest set bit of the power and then
 multiplies `acc ← acc · sq[k]` over the set bits in ascending order, starting from the lowest.
 This loop does the same multiplications in the same order: `cur = x^(2^k)` is squared once per
-bit, `acc` is the running product (`none` before the first set bit). -/
-def powLoop (d : Nat) : Nat → Nat → UG α → Option (UG α) → Option (UG α)
+bit, `acc` is the running product (`none` before the first set bit).  Generic in the
+multiplication so that the driver can run it on tabulated pairs. -/
+def powLoopG {β : Type} (mul : β → β → β) : Nat → Nat → β → Option β → Option β
   | 0, _, _, acc => acc
   | fuel + 1, n, cur, acc =>
     if n = 0 then acc else
-    let acc' := if n % 2 = 1 then (match acc with | none => some cur | some a => some (UG.mul d a cur))
+    let acc' := if n % 2 = 1 then (match acc with | none => some cur | some a => some (mul a cur))
                 else acc
-    powLoop d fuel (n / 2) (UG.mul d cur cur) acc'
+    powLoopG mul fuel (n / 2) (mul cur cur) acc'
+
+def powLoop (d : Nat) : Nat → Nat → UG α → Option (UG α) → Option (UG α) := powLoopG (UG.mul d)
 
 def powUG (d : Nat) (x : UG α) (n : Nat) : UG α := (powLoop d (n + 1) n x none).getD x
 
@@ -544,56 +562,82 @@ def embed (d : Nat) (t : Nat → Nat) (bigInit small : M α) : M α := fun I J =
 
 /-! ## Gate values and the composition code of `composed/*.py` -/
 
-/-- what the contract exposes of a gate: radixes, number of parameters,
-`get_unitary`, `get_grad` (as functions of the circle points of the parameters) -/
+/-- what the contract exposes of a gate: radixes, number of parameters, `get_unitary`,
+`get_grad` (as functions of the circle points of the parameters), tabulated -/
 structure GVal (α : Type) where
   radixes : List Nat
   np : Nat
-  u : List (Ang α) → M α
-  g : List (Ang α) → List (M α)
+  u : List (Ang α) → Tbl α
+  g : List (Ang α) → List (Tbl α)
 
 def GVal.dim (v : GVal α) : Nat := v.radixes.foldl (· * ·) 1
 
 def angAt (ps : List (Ang α)) (k : Nat) : Ang α := ps.getD k Ang.zero
 
+def prodL (l : List Nat) : Nat := l.foldl (· * ·) 1
+
+/-- a family given by its matrix and gradient functions -/
+def mkFam (radixes : List Nat) (np : Nat) (u : List (Ang α) → M α)
+    (g : List (Ang α) → List (M α)) : GVal α :=
+  ⟨radixes, np, fun ps => tab (prodL radixes) (u ps), fun ps => (g ps).map (tab (prodL radixes))⟩
+
 /-- constant gate -/
-def GVal.const (radixes : List Nat) (u : M α) : GVal α := ⟨radixes, 0, fun _ => u, fun _ => []⟩
+def GVal.const (radixes : List Nat) (u : M α) : GVal α := mkFam radixes 0 (fun _ => u) (fun _ => [])
 
 /-- `ControlledGate(gate, num_controls, control_radixes, control_levels)` -/
 def GVal.controlled (controls : List (Nat × List Nat)) (v : GVal α) : GVal α :=
-  let P := (ctrlProj (α := α) controls).2
+  let cd := (ctrlProj (α := α) controls).1
+  let P := look (tab cd (ctrlProj (α := α) controls).2)
   ⟨controls.map (·.1) ++ v.radixes, v.np,
-   fun ps => ctrlU v.dim P (v.u ps),
-   fun ps => (v.g ps).map (ctrlG v.dim P)⟩
+   fun ps => tab (cd * v.dim) (ctrlU v.dim P (look (v.u ps))),
+   fun ps => (v.g ps).map fun g => tab (cd * v.dim) (ctrlG v.dim P (look g))⟩
 
 /-- `DaggerGate(gate)` -/
 def GVal.dagger [Conj α] (v : GVal α) : GVal α :=
-  ⟨v.radixes, v.np, fun ps => Gates.dagger (v.u ps), fun ps => (v.g ps).map Gates.dagger⟩
+  ⟨v.radixes, v.np, fun ps => tab v.dim (Gates.dagger (look (v.u ps))),
+   fun ps => (v.g ps).map fun g => tab v.dim (Gates.dagger (look g))⟩
+
+/-- tabulated (unitary, gradient) pair and the product rule on it -/
+structure TUG (α : Type) where
+  u : Tbl α
+  g : Tbl α
+
+def TUG.mul (d : Nat) (x y : TUG α) : TUG α :=
+  let r := UG.mul d ⟨look x.u, look x.g⟩ ⟨look y.u, look y.g⟩
+  ⟨tab d r.u, tab d r.g⟩
+
+/-- `k`-fold product, re-tabulated after every factor (`UnitaryMatrix.ipower`) -/
+def powT (d : Nat) (x : Tbl α) (k : Nat) : Tbl α :=
+  (List.range k).foldl (fun acc _ => tab d (mulM d (look acc) (look x))) (tab d eye)
 
 /-- `PowerGate(gate, power)` -/
 def GVal.power [Conj α] (n : Int) (v : GVal α) : GVal α :=
   let base : GVal α := if n < 0 then v.dagger else v
   let k := n.natAbs
   ⟨v.radixes, v.np,
-   fun ps => powM v.dim (base.u ps) k,
+   fun ps => powT v.dim (base.u ps) k,
    fun ps =>
      if v.np = 0 then []
-     else if k = 0 then (List.range v.np).map fun _ => zeroM
-     else (base.g ps).map fun gk => (powUG v.dim ⟨base.u ps, gk⟩ k).g⟩
+     else if k = 0 then (List.range v.np).map fun _ => tab v.dim zeroM
+     else
+       let U := base.u ps
+       (base.g ps).map fun gk =>
+         ((powLoopG (TUG.mul v.dim) (k + 1) k ⟨U, gk⟩ none).getD ⟨U, gk⟩).g⟩
 
 /-- `FrozenParameterGate(gate, frozen_params)`; `frozen` sorted by index -/
 def GVal.frozen (frozen : List (Nat × Ang α)) (v : GVal α) : GVal α :=
   let idxs := unfixedIdxs v.np (frozen.map (·.1))
   ⟨v.radixes, v.np - frozen.length,
    fun ps => v.u (fullParams ps frozen),
-   fun ps => let gs := v.g (fullParams ps frozen); idxs.map fun i => gs.getD i zeroM⟩
+   fun ps => let gs := v.g (fullParams ps frozen); idxs.map fun i => gs.getD i (tab v.dim zeroM)⟩
 
 /-- `EmbeddedGate(gate, radixes, level_maps)` -/
 def GVal.embedded (radixes : List Nat) (levelMaps : List (List Nat)) (v : GVal α) : GVal α :=
   let t := embTarget v.radixes radixes levelMaps
+  let D := prodL radixes
   ⟨radixes, v.np,
-   fun ps => embed v.dim t eye (v.u ps),
-   fun ps => (v.g ps).map (embed v.dim t zeroM)⟩
+   fun ps => tab D (embed v.dim t eye (look (v.u ps))),
+   fun ps => (v.g ps).map fun g => tab D (embed v.dim t zeroM (look g))⟩
 
 /-- `TaggedGate(gate, tag)` -/
 def GVal.tagged (v : GVal α) : GVal α := v
@@ -613,33 +657,45 @@ def ones (n : Nat) : List Nat := List.replicate n 2
 def family (K : Consts α) (name : String) (args : List Nat) : Option (GVal α) :=
   let p := angAt
   match name, args with
-  | "U3Gate", [] => some ⟨[2], 3, fun ps => u3 K (p ps 0) (p ps 1) (p ps 2),
-      fun ps => [u3_g0 K (p ps 0) (p ps 1) (p ps 2), u3_g1 K (p ps 0) (p ps 1) (p ps 2),
-                 u3_g2 K (p ps 0) (p ps 1) (p ps 2)]⟩
-  | "U2Gate", [] => some ⟨[2], 2, fun ps => u2 K (p ps 0) (p ps 1),
-      fun ps => [u2_g0 K (p ps 0) (p ps 1), u2_g1 K (p ps 0) (p ps 1)]⟩
-  | "U1Gate", [] => some ⟨[2], 1, fun ps => u1 K (p ps 0), fun ps => [u1_g0 K (p ps 0)]⟩
-  | "RXGate", [] => some ⟨[2], 1, fun ps => rx K (p ps 0), fun ps => [rx_g0 K (p ps 0)]⟩
-  | "RYGate", [] => some ⟨[2], 1, fun ps => ry (p ps 0), fun ps => [ry_g0 K (p ps 0)]⟩
-  | "RZGate", [] => some ⟨[2], 1, fun ps => rz K (p ps 0), fun ps => [rz_g0 K (p ps 0)]⟩
-  | "U1qGate", [] => some ⟨[2], 2, fun ps => u1q K (p ps 0) (p ps 1),
-      fun ps => [u1q_g0 K (p ps 0) (p ps 1), u1q_g1 K (p ps 0) (p ps 1)]⟩
-  | "PhasedXZGate", [] => some ⟨[2], 3, fun ps => pxz K (p ps 0) (p ps 1) (p ps 2),
-      fun ps => [pxz_g0 K (p ps 0) (p ps 1) (p ps 2), pxz_g1 K (p ps 0) (p ps 1) (p ps 2),
-                 pxz_g2 K (p ps 0) (p ps 1) (p ps 2)]⟩
-  | "RXXGate", [] => some ⟨[2, 2], 1, fun ps => rxx K (p ps 0), fun ps => [rxx_g0 K (p ps 0)]⟩
-  | "RYYGate", [] => some ⟨[2, 2], 1, fun ps => ryy K (p ps 0), fun ps => [ryy_g0 K (p ps 0)]⟩
-  | "RZZGate", [] => some ⟨[2, 2], 1, fun ps => rzz K (p ps 0), fun ps => [rzz_g0 K (p ps 0)]⟩
-  | "CPGate", [] => some ⟨[2, 2], 1, fun ps => cp K (p ps 0), fun ps => [cp_g0 K (p ps 0)]⟩
-  | "CRXGate", [] => some ⟨[2, 2], 1, fun ps => crx K (p ps 0), fun ps => [crx_g0 K (p ps 0)]⟩
-  | "CRYGate", [] => some ⟨[2, 2], 1, fun ps => cry (p ps 0), fun ps => [cry_g0 K (p ps 0)]⟩
-  | "CRZGate", [] => some ⟨[2, 2], 1, fun ps => crz K (p ps 0), fun ps => [crz_g0 K (p ps 0)]⟩
-  | "CUGate", [] => some ⟨[2, 2], 4, fun ps => cu K (p ps 0) (p ps 1) (p ps 2) (p ps 3),
-      fun ps => [cu_g0 K (p ps 0) (p ps 1) (p ps 2) (p ps 3), cu_g1 K (p ps 0) (p ps 1) (p ps 2) (p ps 3),
-                 cu_g2 K (p ps 0) (p ps 1) (p ps 2) (p ps 3), cu_g3 K (p ps 0) (p ps 1) (p ps 2) (p ps 3)]⟩
-  | "FSIMGate", [] => some ⟨[2, 2], 2, fun ps => fsim K (p ps 0) (p ps 1),
-      fun ps => [fsim_g0 K (p ps 0), fsim_g1 K (p ps 1)]⟩
-  | "CCPGate", [] => some ⟨[2, 2, 2], 1, fun ps => ccp K (p ps 0), fun ps => [ccp_g0 K (p ps 0)]⟩
+  | "U3Gate", [] => some (mkFam [2] 3 (fun ps => u3 K (p ps 0) (p ps 1) (p ps 2))
+      (fun ps => [u3_g0 K (p ps 0) (p ps 1) (p ps 2), u3_g1 K (p ps 0) (p ps 1) (p ps 2),
+                 u3_g2 K (p ps 0) (p ps 1) (p ps 2)]))
+  | "U2Gate", [] => some (mkFam [2] 2 (fun ps => u2 K (p ps 0) (p ps 1))
+      (fun ps => [u2_g0 K (p ps 0) (p ps 1), u2_g1 K (p ps 0) (p ps 1)]))
+  | "U1Gate", [] => some (mkFam [2] 1 (fun ps => u1 K (p ps 0))
+      (fun ps => [u1_g0 K (p ps 0)]))
+  | "RXGate", [] => some (mkFam [2] 1 (fun ps => rx K (p ps 0))
+      (fun ps => [rx_g0 K (p ps 0)]))
+  | "RYGate", [] => some (mkFam [2] 1 (fun ps => ry (p ps 0))
+      (fun ps => [ry_g0 K (p ps 0)]))
+  | "RZGate", [] => some (mkFam [2] 1 (fun ps => rz K (p ps 0))
+      (fun ps => [rz_g0 K (p ps 0)]))
+  | "U1qGate", [] => some (mkFam [2] 2 (fun ps => u1q K (p ps 0) (p ps 1))
+      (fun ps => [u1q_g0 K (p ps 0) (p ps 1), u1q_g1 K (p ps 0) (p ps 1)]))
+  | "PhasedXZGate", [] => some (mkFam [2] 3 (fun ps => pxz K (p ps 0) (p ps 1) (p ps 2))
+      (fun ps => [pxz_g0 K (p ps 0) (p ps 1) (p ps 2), pxz_g1 K (p ps 0) (p ps 1) (p ps 2),
+                 pxz_g2 K (p ps 0) (p ps 1) (p ps 2)]))
+  | "RXXGate", [] => some (mkFam [2, 2] 1 (fun ps => rxx K (p ps 0))
+      (fun ps => [rxx_g0 K (p ps 0)]))
+  | "RYYGate", [] => some (mkFam [2, 2] 1 (fun ps => ryy K (p ps 0))
+      (fun ps => [ryy_g0 K (p ps 0)]))
+  | "RZZGate", [] => some (mkFam [2, 2] 1 (fun ps => rzz K (p ps 0))
+      (fun ps => [rzz_g0 K (p ps 0)]))
+  | "CPGate", [] => some (mkFam [2, 2] 1 (fun ps => cp K (p ps 0))
+      (fun ps => [cp_g0 K (p ps 0)]))
+  | "CRXGate", [] => some (mkFam [2, 2] 1 (fun ps => crx K (p ps 0))
+      (fun ps => [crx_g0 K (p ps 0)]))
+  | "CRYGate", [] => some (mkFam [2, 2] 1 (fun ps => cry (p ps 0))
+      (fun ps => [cry_g0 K (p ps 0)]))
+  | "CRZGate", [] => some (mkFam [2, 2] 1 (fun ps => crz K (p ps 0))
+      (fun ps => [crz_g0 K (p ps 0)]))
+  | "CUGate", [] => some (mkFam [2, 2] 4 (fun ps => cu K (p ps 0) (p ps 1) (p ps 2) (p ps 3))
+      (fun ps => [cu_g0 K (p ps 0) (p ps 1) (p ps 2) (p ps 3), cu_g1 K (p ps 0) (p ps 1) (p ps 2) (p ps 3),
+                 cu_g2 K (p ps 0) (p ps 1) (p ps 2) (p ps 3), cu_g3 K (p ps 0) (p ps 1) (p ps 2) (p ps 3)]))
+  | "FSIMGate", [] => some (mkFam [2, 2] 2 (fun ps => fsim K (p ps 0) (p ps 1))
+      (fun ps => [fsim_g0 K (p ps 0), fsim_g1 K (p ps 1)]))
+  | "CCPGate", [] => some (mkFam [2, 2, 2] 1 (fun ps => ccp K (p ps 0))
+      (fun ps => [ccp_g0 K (p ps 0)]))
   -- constants
   | "IdentityGate", rs => some (.const rs eye)
   | "XGate", [] => some (.const [2] xGate)
